@@ -23,6 +23,7 @@ def dispatch (line : String) : String :=
     | "print" => Drivers.Print.handle args
     | "extract" => Drivers.Extract.handle args
     | "pstmt" => Drivers.ParseStmt.handle args
+    | "stmt" => Drivers.ParseStmt.handleStmt args
     | _ => "unknown-kind"
   | _ => "bad-line"
 
